@@ -355,6 +355,22 @@ def gen_schema(rng, with_signers=False, n_rules=None, allow_fn=True, defect24_cl
         rules.append(rule)
         names.append(rname)
         levels[rname] = level
+        pat_pos = [j for j, c in enumerate(comps) if c[0] == 'pat']
+        if with_signers and not is_temp and len(pat_pos) >= 2 and rng.random() < 0.3:
+            # a second rule of the same shape whose named patterns sit at other positions: one packet name then matches
+            # two signed rules with different bindings for the same pattern name
+            import copy as _copy
+            twin = _copy.deepcopy(rule)
+            twin['name'] = '#v%d' % i
+            vals = [twin['comps'][j] for j in pat_pos]
+            vals = vals[1:] + vals[:1]
+            for j, v_ in zip(pat_pos, vals):
+                twin['comps'][j] = v_
+            twin['cons'] = []
+            first_idx.setdefault(twin['name'], i)
+            rules.append(twin)
+            names.append(twin['name'])
+            levels[twin['name']] = level
         if not is_temp and rng.random() < 0.2 and i + 1 < n:
             # the same name pattern and constraints once more (same or another rule id): with signers the two definitions
             # end in one tree node and may list different signers
@@ -428,3 +444,50 @@ def all_names(alphabet, max_len, limit, rng):
 
 STRIP_TMP = re.compile(r'#\d+$')
 INTERIOR = re.compile(r'^#_\d+$')
+
+
+# ------------------------------------------------------------------ template schemas
+def template_schemas(rng, with_signers):
+    """Small schemas built around structures where the compiler / checker bookkeeping is delicate; literal and
+    pattern names are drawn at random so that the numbering and sorting differ from run to run."""
+    lits = rng.sample(LIT_TEXTS, 3)
+    a, b, c = lits
+    p1, p2, p3 = rng.sample(PAT_NAMES, 3)
+    R = lambda name, comps, cons=None, signers=None: {'name': name, 'comps': comps, 'cons': cons or [], 'signers': signers or []}   # noqa
+    L = lambda t: ('lit', t)   # noqa
+    P = lambda t: ('pat', t)   # noqa
+    out = []
+    if not with_signers:
+        # shared prefix binding p1; one branch repeats p1 and fails, the sibling relies on p1 still being bound
+        out.append({'rules': [R('#r1', [P(p1), P(p1), L(a)]), R('#r2', [P(p1), P(p2), P(p1)]), R('#r3', [P(p1), P(p2), P(p2), L(b)])]})
+        out.append({'rules': [R('#r1', [L(a), P(p1), P(p2), P(p1)]), R('#r2', [L(a), P(p1), P(p1)]), R('#r3', [L(a), P(p1), L(b), P(p1)])]})
+        # the same rule referenced twice / three times, with constrained temporaries and a redefinition using the same spelling
+        out.append({'rules': [R('#k', [L(a), P('_v')], [[('_v', [L(b), L(c)])]]), R('#pair', [('ref', '#k'), ('ref', '#k')]),
+                              R('#tri', [('ref', '#k'), P(p1), ('ref', '#k'), ('ref', '#k')])]})
+        out.append({'rules': [R('#r', [L(a), P('_x')], [[('_x', [L(b)])]]), R('#r', [L(b), P('_x'), P('_x')], [[('_x', [L(a), L(c)])]]),
+                              R('#u', [('ref', '#r'), P(p1)])]})
+        # alternative sets that differ in one function argument / option only
+        out.append({'rules': [R('#alt', [L(a), P(p1), P(p2), P(p3)], [[(p3, [('fn', '$eq', [P(p1)])])], [(p3, [('fn', '$eq', [P(p2)])])]]),
+                              R('#alt2', [L(b), P(p1), P(p2), P(p3)], [[(p3, [P(p1)])], [(p3, [P(p2)])]])]})
+        out.append({'rules': [R('#s1', [L(a), P(p1), P(p2)], [[(p2, [('fn', '$not', [P(p1)])])]]), R('#s2', [L(a), P(p1), P(p2)], [[(p2, [('fn', '$not', [L(b)])])]]),
+                              R('#s3', [L(a), P(p1), P(p2)], [[(p2, [L(b), P(p1)])]])]})
+        # inherited + added constraints on the same pattern
+        out.append({'rules': [R('#base', [P(p1), L(a)], [[(p1, [L(b), L(c)])]]), R('#ext', [('ref', '#base'), P(p2)], [[(p1, [L(c), L(a)]), (p2, [P(p1)])]])]})
+    else:
+        k1, k2 = '#k1', '#k2'
+        # one packet name matches two signed rules that bind the shared pattern differently
+        out.append({'rules': [R('#own', [L('L0'), P(p1), P('_'), P('_')], None, [k1]), R('#shr', [L('L0'), P('_'), P(p1), P('_')], None, [k2]),
+                              R(k1, [L('L1'), P(p1)]), R(k2, [L('L2'), P(p1), L(a)])]})
+        out.append({'rules': [R('#own', [L('L0'), P(p1), P(p2)], None, [k1]), R('#shr', [L('L0'), P(p2), P(p1)], None, [k1, k2]),
+                              R(k1, [L('L1'), P(p1), P(p2)]), R(k2, [L('L2'), P(p2)])]})
+        # two definitions ending in one node with different signers; a signer-less definition of the same shape
+        out.append({'rules': [R('#cfg', [L('L0'), P(p1), P(p2)], None, [k1]), R('#aud', [L('L0'), P(p1), P(p2)], None, [k2]),
+                              R('#zzz', [L('L0'), P(p1), P(p2)]), R(k1, [L('L1'), P(p1)]), R(k2, [L('L2'), L(a)])]})
+        # key rule constraining a pattern carried over from the packet; constraint referring to a packet-bound pattern
+        out.append({'rules': [R('#pkt', [L('L0'), P(p1)], None, [k1]), R(k1, [L('L1'), P(p1)], [[(p1, [L(a), L(b)])]])]})
+        out.append({'rules': [R('#pkt', [L('L0'), P(p1), P(p2)], None, [k1]), R(k1, [L('L1'), P(p3)], [[(p3, [P(p2)])]], ['#root']),
+                              R('#root', [L('L2')])]})
+        # the shared pattern is the highest-numbered named pattern; temporaries next to it
+        out.append({'rules': [R('#pkt', [L('L0'), P(p1), P(p2), P('_')], None, [k1]), R(k1, [L('L1'), P(p1), P(p2)], None, [k2]),
+                              R(k2, [L('L2'), P('_'), P(p2)])]})
+    return out
